@@ -15,6 +15,8 @@ LEVEL_NOTE = ("Trusted: Coq 8.16.1 kernel (full .vo build, vm_compute, no native
               "See DESIGN.md section 3.")
 
 CHECKS = {}   # filled from the MANIFEST dict of each checks/cXX.py
+# checks whose engine has been integrated and verified by the lead on the unchanged tree
+ENABLED = {"C11", "C16", "C17", "C18"}
 
 NOT_YET = {}
 
@@ -29,7 +31,7 @@ def collect():
         except ModuleNotFoundError:
             continue
         m = getattr(mod, "MANIFEST", None)
-        if m:
+        if m and pid in ENABLED:
             CHECKS[pid] = m
 
 
